@@ -121,6 +121,7 @@ def run_case(case, ctx):
     s0 = snapshot(fr)
     twin_geom = dict(g, route='sizes', df=fr.df, dt=fr.dt, fch1=fr.fch1)
     returned = []
+    held = []
     any_signal = False
     any_range = False
     for k, inj in enumerate(case['inj']):
@@ -135,6 +136,7 @@ def run_case(case, ctx):
             obs.fail('return_shape', f'{ret.shape}')
             return obs
         returned.append(ret.astype(np.float64))
+        held.append(ret)            # the caller's own reference, as returned
         # additivity, exactly, in the frame's dtype
         want = (before.astype(np.float64) + ret.astype(np.float64)).astype(before.dtype)
         if not np.array_equal(fr.data, want):
@@ -181,6 +183,11 @@ def run_case(case, ctx):
                     any_signal = True
         elif np.any(ret != 0):
             any_signal = True
+    # the arrays handed back earlier are the caller's: later injections must not change them
+    for k, (h, c) in enumerate(zip(held, returned)):
+        if not np.array_equal(np.asarray(h, dtype=np.float64), c):
+            obs.fail('returned_array_changed_by_later_injection', f'return of injection {k} of {len(held)}')
+            break
     # superposition
     total = np.sum(returned, axis=0)
     n = len(returned)
